@@ -65,10 +65,21 @@ func initReadChannel() {
 		"pop",
 		func(vm *Thread, args []value.Value) (value.Value, value.Value) {
 			self := args[0].AsReference().(value.ReadChannel)
+			result, err := self.PopCtx(vm.Aborter.Context())
+			if err.IsNotUndefined() {
+				return value.Undefined, err
+			}
+			return result, value.Undefined
+		},
+	)
+	Def(
+		c,
+		"<<@",
+		func(vm *Thread, args []value.Value) (value.Value, value.Value) {
+			self := args[0].AsReference().(value.ReadChannel)
 			return value.MakeResult2(self.PopCtx(vm.Aborter.Context())).ToValue(), value.Undefined
 		},
 	)
-	Alias(c, "<<@", "pop")
 
 	Def(
 		c,
